@@ -11,7 +11,8 @@ enum { VM_EXIT_NEXT = 1, VM_EXIT_LOOP, VM_EXIT_ERROR, VM_EXIT_END, VM_EXIT_MAKE_
 KIT_C_BEGIN
 DECL(VECTOR_REF) DECL(VECTOR_SET) DECL(VECTOR_LENGTH) DECL(BYTES_REF) DECL(BYTES_SET) DECL(BYTES_LENGTH) DECL(STRING_REF)
 DECL(STRING_LENGTH) DECL(STRING_CURSOR_NEXT) DECL(STRING_CURSOR_PREV) DECL(STRING_CURSOR_END) DECL(CAR) DECL(CDR) DECL(SET_CAR)
-DECL(SET_CDR) DECL(CHAR2INT) DECL(INT2CHAR) DECL(ADD) DECL(SUB) DECL(MUL) DECL(QUOTIENT) DECL(REMAINDER) DECL(LT) DECL(LE) DECL(EQN)
+DECL(SET_CDR) DECL(CHAR2INT) DECL(INT2CHAR) DECL(SLOTN_REF) DECL(SLOTN_SET) DECL(MAKE_VECTOR)
+DECL(ADD) DECL(SUB) DECL(MUL) DECL(QUOTIENT) DECL(REMAINDER) DECL(LT) DECL(LE) DECL(EQN)
 KIT_C_END
 
 /* operand kinds */
@@ -27,6 +28,10 @@ KIT_C_END
 #define K_IMMUTABLE_VECTOR 9
 #define K_FLONUM 10
 #define K_OCTET 11      /* fixnum 0..255 */
+#define K_RECTYPE 13    /* a record type with 2 slots, registered in the type table */
+#define K_RECORD 14     /* an instance of that type */
+#define K_OTHERREC 15   /* an instance of a different record type (3 slots) */
+#define K_SMALLNAT 16   /* fixnum -2..6 */
 #ifndef VLEN
 #define VLEN 2
 #endif
@@ -38,8 +43,32 @@ KIT_C_END
 #define DEPTH 12
 
 static sexp elems[VLEN > 0 ? VLEN : 1];
+static sexp rectype, rec_slots[3];
+static sexp mk_rectype(sexp ctx, int tag, int nslots) {
+  sexp t = kit_alloc_tagged(sexp_sizeof(type), SEXP_TYPE);
+  sexp_type_tag(t) = tag; sexp_type_field_base(t) = sexp_sizeof_header; sexp_type_field_eq_len_base(t) = nslots; sexp_type_field_len_base(t) = nslots;
+  sexp_type_size_base(t) = sexp_sizeof_header + nslots * sizeof(sexp);
+  sexp_type_cpl(t) = SEXP_FALSE; sexp_type_slots(t) = SEXP_NULL; sexp_type_getters(t) = SEXP_FALSE; sexp_type_setters(t) = SEXP_FALSE; sexp_type_name(t) = SEXP_FALSE;
+  sexp types = sexp_global(kit_the_ctx, SEXP_G_TYPES);
+  sexp_vector_data(types)[tag] = t;
+  if ((sexp_uint_t)tag + 1 > sexp_vector_length(types)) sexp_vector_length(types) = tag + 1;
+  sexp_global(kit_the_ctx, SEXP_G_NUM_TYPES) = sexp_make_fixnum(sexp_vector_length(types));
+  return t;
+}
 static sexp mk(int kind) {
   switch (kind) {
+  case K_RECTYPE: if (!rectype) rectype = mk_rectype(kit_the_ctx, SEXP_NUM_CORE_TYPES, 2); return rectype;
+  case K_RECORD: {
+    if (!rectype) rectype = mk_rectype(kit_the_ctx, SEXP_NUM_CORE_TYPES, 2);
+    sexp r = kit_alloc_tagged(sexp_sizeof_header + 2 * sizeof(sexp), SEXP_NUM_CORE_TYPES);
+    for (int i = 0; i < 2; i++) { rec_slots[i] = kit_flonum(10.0 + i); sexp_slot_ref(r, i) = rec_slots[i]; }
+    return r; }
+  case K_OTHERREC: {
+    mk_rectype(kit_the_ctx, SEXP_NUM_CORE_TYPES + 1, 3);
+    sexp r = kit_alloc_tagged(sexp_sizeof_header + 3 * sizeof(sexp), SEXP_NUM_CORE_TYPES + 1);
+    for (int i = 0; i < 3; i++) sexp_slot_ref(r, i) = kit_flonum(20.0 + i);
+    return r; }
+  case K_SMALLNAT: { sexp_sint_t v = nondet_sword(); __CPROVER_assume(v >= -2 && v <= 6); return sexp_make_fixnum(v); }
   case K_VECTOR: case K_IMMUTABLE_VECTOR: {
     sexp v = kit_vector(VLEN);
     for (int i = 0; i < VLEN; i++) { elems[i] = kit_flonum(1.0 + i); sexp_vector_data(v)[i] = elems[i]; }
@@ -209,6 +238,44 @@ void harness(void) {
     if (sexp_unbox_fixnum(a1) >= 0 && sexp_unbox_fixnum(a1) <= 0x1FFFFF) KIT_ASSERT(sexp_unbox_character(stack[top-1]) == sexp_unbox_fixnum(a1), "integer->char keeps the code point");
   }
   else KIT_ASSERT(ex == VM_EXIT_ERROR, "integer->char of a non-integer is an error");
+#elif OPC == 16   /* SLOTN_REF: ARG1 record type, ARG2 record, ARG3 slot index */
+  ex = RUN(SLOTN_REF);
+#if V1 == K_RECTYPE && V2 == K_RECORD && V3 == K_FIXNUM
+  sexp_sint_t i = sexp_unbox_fixnum(a3);
+  if (i >= 0 && i < 2) KIT_ASSERT(ex == VM_EXIT_NEXT && top == top0 - 2 && stack[top-1] == rec_slots[i], "record field reference returns slot i");
+  else KIT_ASSERT(ex == VM_EXIT_ERROR, "a field index outside the record is an error");
+#else
+  KIT_ASSERT(ex == VM_EXIT_ERROR, "record field reference with a wrong type / record of another type is an error");
+#endif
+#elif OPC == 17   /* SLOTN_SET: ARG1 type, ARG2 record, ARG3 index, ARG4 value */
+  sexp val4 = kit_flonum(99.0);
+  /* four operands: re-push in the right order (value below the three others) */
+  top = BASE; stack[top++] = val4; stack[top++] = a3; stack[top++] = a2; stack[top++] = a1; top0 = top;
+  ex = RUN(SLOTN_SET);
+#if V1 == K_RECTYPE && V2 == K_RECORD && V3 == K_FIXNUM
+  sexp_sint_t i = sexp_unbox_fixnum(a3);
+  if (i >= 0 && i < 2) {
+    KIT_ASSERT(ex == VM_EXIT_NEXT && top == top0 - 4, "record field assignment pops its four operands");
+    for (int k = 0; k < 2; k++) KIT_ASSERT(sexp_slot_ref(a2, k) == (k == i ? val4 : rec_slots[k]), "exactly field i is assigned");
+  } else {
+    KIT_ASSERT(ex == VM_EXIT_ERROR, "a field index outside the record is an error");
+    for (int k = 0; k < 2; k++) KIT_ASSERT(sexp_slot_ref(a2, k) == rec_slots[k], "a rejected assignment writes nothing");
+  }
+#else
+  KIT_ASSERT(ex == VM_EXIT_ERROR, "record field assignment with a wrong type / record of another type is an error");
+#endif
+#elif OPC == 18   /* MAKE_VECTOR: ARG1 length, ARG2 fill */
+  ex = RUN(MAKE_VECTOR);
+#if V1 == K_SMALLNAT
+  sexp_sint_t len = sexp_unbox_fixnum(a1);
+  if (len < 0) KIT_ASSERT(ex == VM_EXIT_ERROR, "a negative length is an error");
+  else {
+    KIT_ASSERT(ex == VM_EXIT_NEXT && top == top0 - 1 && sexp_vectorp(stack[top-1]) && (sexp_sint_t)sexp_vector_length(stack[top-1]) == len, "make-vector returns a vector of the requested length");
+    for (int k = 0; k < 6; k++) if (k < len) KIT_ASSERT(sexp_vector_data(stack[top-1])[k] == a2, "every element is the fill value");
+  }
+#else
+  KIT_ASSERT(ex == VM_EXIT_ERROR, "a non-integer length is an error");
+#endif
 #elif OPC >= 20 && OPC <= 27   /* fixnum fast paths: ARG1 op ARG2, both free fixnums */
   /* the generic sexp_add/sub/mul/quotient/remainder/compare of bignum.c are replaced by recording
      models (their exactness is C04's subject): checked here are the fixnum fast path itself and
